@@ -228,8 +228,13 @@ pub fn run(ops: &[String]) -> Vec<String> {
 					let r = run.as_mut().unwrap();
 					r.m.on_start_processing();
 					let p = std::mem::take(&mut r.pending);
-					if p.frequency.is_some() || p.amplitude.is_some() || p.offset.is_some() || p.waveform.is_some() || p.phase.is_some() {
+					if p.frequency.is_some() || p.amplitude.is_some() || p.offset.is_some() || p.waveform.is_some() {
 						r.pure = None;
+					}
+					if let (Some(ph), Some((f, a, o, _))) = (p.phase, r.pure) {
+						// a new (non-negative) phase restarts the closed-form curve from that phase
+						r.pure = if ph >= 0.0 { Some((f, a, o, ph / TAU)) } else { None };
+						r.elapsed = 0.0;
 					}
 					if let Some((v, tw)) = p.frequency {
 						r.freq.set(v, tw);
@@ -328,6 +333,14 @@ pub fn gen(rng: &mut Rng, n: usize, _thorough: bool, stats: &mut Stats) -> Vec<S
 		out.push(format!("new {} {} {} {} {}", wf, f, a, o, o64(ph)));
 		let steps = rng.range(6, 30);
 		for _ in 0..steps {
+			if pure && rng.chance(1, 12) {
+				// the handle sets a new phase: takes effect at the next on_start_processing
+				out.push(format!("set_phase {}", o64(gen_phase(rng).abs())));
+				out.push("start".into());
+				stats.hit("set_phase");
+				stats.hit("start");
+				continue;
+			}
 			let line = match if pure { 20 } else { rng.below(24) } {
 				0 => {
 					let k = rng.below(MAX_IDS as u64 + 1);
